@@ -119,6 +119,17 @@ def execute_step(m: Machine, step, prop_of):
     e = m.resolve(step["obj"]) if "obj" in step else None
     if "obj" in step and e is None:
         return None  # object does not exist (shrunk history): skip
+    # an object cropped to zero poses (legal outcome of an empty interval) is
+    # terminal: evo defines its count and nothing else on it (DESIGN 4.4, 9.9)
+    for key in ("obj", "ref", "other", "a", "b"):
+        if step.get(key):
+            x = m.resolve(step[key])
+            if x is not None and x.model is not None and x.model.n == 0:
+                return None
+    for u in step.get("objs", ()):
+        x = m.resolve(u)
+        if x is not None and x.model is not None and x.model.n == 0:
+            return None
     EvoExc = evo.EvoException
     receivers, new = [], []
 
